@@ -126,6 +126,7 @@ class RW:
         self.adapters = {i: {} for i in range(len(self.regs))}
         self.subs = {i: [] for i in range(len(self.regs))}
         self.serial = 0
+        self.allvals = []
         ctx.op('world', self.flavour, 'R=' + nm([(r.__name__, nm(r.__bases__)) for r in self.R]),
                'P=' + nm([(p.__name__, nm(p.__bases__)) for p in self.P]),
                'regs=' + str([[self.regs.index(b) for b in r.__bases__] for r in self.regs]))
@@ -141,7 +142,9 @@ class RW:
         self.serial += 1
         if ret is None:
             ret = self.rng.random() < 0.8
-        return (FalsyVal if self.rng.random() < 0.1 else Val)(self.rng.randint(0, 3), self.serial, ret)
+        v = (FalsyVal if self.rng.random() < 0.1 else Val)(self.rng.randint(0, 3), self.serial, ret)
+        self.allvals.append(v)
+        return v
 
     def chain(self, ri):
         """C3 order of the registry chain, from the *current* __bases__.  Where the base lists admit no C3 order (only
@@ -571,14 +574,46 @@ def run_c08(ctx, rng, job):
         lreq = tuple(providedBy(o) for o in obs)
         lprov = rng.choice(w.P + [Interface])
         D = object()
-        order = rng.sample(ENTRY_POINTS, len(ENTRY_POINTS)) + rng.sample(ENTRY_POINTS, 4)
-        first = {}
         names_pool = ['', 'a', 'b', '\xfc']
         unwrap = [o.__self__ if isinstance(o, super) else o for o in obs]
         if any(isinstance(o, super) for o in obs):
             ctx.count('super_proxy_keys')
-        for n_ep, ep in enumerate(order):
-            state = 'cold' if not first else ('warm-by-self' if ep in first else 'warm-by-other')
+        # round 1: a seeded subset of the entry points (the others stay cold for this key); then something that
+        # changes the answers happens (a registration in the registry or in one above it, or a declaration on one of
+        # the objects / their classes); round 2: all entry points, in a new order - whichever comes first is the
+        # first to notice (or not) what happened, the others are asked with its leftovers in the caches
+        rounds = [('r1', rng.sample(ENTRY_POINTS, rng.randint(3, len(ENTRY_POINTS)))),
+                  ('r2', rng.sample(ENTRY_POINTS, len(ENTRY_POINTS)) + rng.sample(ENTRY_POINTS, 4))]
+        first = {}
+        if ar >= 2 and rng.random() < 0.5:
+            # the first object alone, before the multi-object key is ever asked for (the lookup object then already
+            # watches the first specification when it meets the second one)
+            reg.lookup(lreq[:1], lprov, '')
+            ctx.count('single_object_warmups_before_multi_keys')
+        for rlabel, order in rounds:
+          if rlabel == 'r2':
+            first = {}
+            kind = rng.choice(['registry', 'registry', 'class', 'object'])
+            if kind == 'registry' or not obs:
+                rj = rng.choice(w.chain(li) or [li])
+                val = w.newval()
+                if rng.random() < 0.6:
+                    w.register(rj, tuple([None] * ar), rng.choice([lprov] + [p for p in w.P if p.extends(lprov)]), rng.choice(names_pool[:2]), val)
+                else:
+                    w.subscribe(rj, tuple([None] * ar), rng.choice([lprov, None]), val)
+            else:
+                o = rng.choice(unwrap)
+                sel = rng.sample(w.R, rng.randint(1, min(2, len(w.R))))
+                if kind == 'class' and type(o).__module__ != 'builtins':
+                    ctx.op('classImplements', type(o).__name__, nm(sel))
+                    classImplements(type(o), *sel)
+                else:
+                    ctx.op('alsoProvides', getattr(o, 'zname', '?'), nm(sel))
+                    alsoProvides(o, *sel)
+                lreq = tuple(providedBy(x) for x in obs)
+            ctx.count('changes_between_rounds[%s]' % kind)
+          for n_ep, ep in enumerate(order):
+            state = rlabel + ('-cold' if not first else ('-warm-by-self' if ep in first else '-warm-by-other'))
             first.setdefault(ep, n_ep)
             ctx.count('cell[%s,%s]' % (ep, state))
             where = {'entry': ep, 'state': state, 'registry': li, 'required': nm(lreq), 'provided': nm(lprov)}
@@ -613,10 +648,11 @@ def run_c08(ctx, rng, job):
                     ctx.count('keys_with_2plus_names')
             elif ep in ('queryAdapter', 'adapter_hook') and ar == 1:
                 for n in names_pool:
-                    f = reg.lookup(lreq, lprov, n)
-                    if f is not None:
-                        del f.calls[:]
+                    for v_ in w.allvals:
+                        del v_.calls[:]
+                    # the entry point under test first, the reference (lookup) afterwards
                     got = reg.queryAdapter(obs[0], lprov, n, D) if ep == 'queryAdapter' else reg.adapter_hook(lprov, obs[0], n, D)
+                    f = reg.lookup(lreq, lprov, n)
                     ctx.ev()
                     if f is None:
                         ok = got is D
@@ -635,10 +671,10 @@ def run_c08(ctx, rng, job):
                     ctx.violation('queryAdapter-default-none', where)
             elif ep == 'queryMultiAdapter':
                 for n in names_pool:
-                    f = reg.lookup(lreq, lprov, n)
-                    if f is not None:
-                        del f.calls[:]
+                    for v_ in w.allvals:
+                        del v_.calls[:]
                     got = reg.queryMultiAdapter(obs, lprov, n, D)
+                    f = reg.lookup(lreq, lprov, n)
                     ctx.ev()
                     if f is None:
                         ok = got is D
@@ -649,11 +685,19 @@ def run_c08(ctx, rng, job):
                         ctx.violation('queryMultiAdapter-vs-lookup', dict(where, name=n, factory=repr(f)))
             elif ep in ('subscriptions', 'subscribers'):
                 for sp in (lprov, None):
-                    subs = list(reg.subscriptions(lreq, sp))
-                    for s in subs:
-                        del s.calls[:]
-                    got = reg.subscribers(obs, sp)
+                    for v_ in w.allvals:
+                        del v_.calls[:]
+                    if ep == 'subscribers':
+                        got = reg.subscribers(obs, sp)
+                        subs = list(reg.subscriptions(lreq, sp))
+                    else:
+                        subs = list(reg.subscriptions(lreq, sp))
+                        for v_ in w.allvals:
+                            del v_.calls[:]
+                        got = reg.subscribers(obs, sp)
                     ctx.ev()
+                    if any(v_.calls and not any(v_ is x for x in subs) for v_ in w.allvals):
+                        ctx.violation('subscribers-called-something-else', dict(where, handlers=sp is None))
                     called_ok = all(len(s.calls) == subs.count(s) * 1 or len(s.calls) == sum(1 for x in subs if x is s) for s in subs) and \
                         all(all(a is b for a, b in zip(c, obs)) for s in subs for c in s.calls)
                     if sp is None:
